@@ -140,11 +140,14 @@ WRAP_TEXT = {
 }
 
 
-def render_doc(d: dict) -> str:
-    """Canonical text of an editable document (shape "ok")."""
+def render_doc(d: dict, in_comments: bool = False) -> str:
+    """Canonical text of an editable document (shape "ok").  in_comments: an own-line comment follows every `in'
+    (trivia that belongs to the let layers themselves)."""
     inner = _val(d["body"], 0)
-    for layer in reversed(d["layers"]):
-        inner = "let\n" + "\n".join(_items(layer, 2)) + "\nin\n" + inner
+    n = len(d["layers"])
+    for k, layer in enumerate(reversed(d["layers"])):
+        note = f"# after in {n - k}\n" if in_comments else ""
+        inner = "let\n" + "\n".join(_items(layer, 2)) + "\nin\n" + note + inner
     for w in reversed(d["wrap"]):
         pre, post = WRAP_TEXT[w]
         inner = pre + inner + post
